@@ -356,8 +356,8 @@ var (
 		"http://b.example/d/doc#", "http://b.example/d/doc?q=1#", "http://b.example/d/doc?#"}
 	relBases = []string{"sub/", "../up/doc", "x", "./", "/rooted/base", "//auth.example/p/q", "e/f/g?x=y", "../../",
 		"//auth.example", "//auth.example?k", "?", "?x#", "#", "doc#", "", "//c.example#"}
-	absIRIs  = []string{"http://a.example/x", "http://b.example/d/e/f", "http://b.example/d/doc", "urn:x:y", "http://b.example/d/doc#frag", "mailto:a@b.example", "http://a.example/é/ü?k=v#f", "http://a.example/a%20b", "http://b.example/", "http://b.example/d/"}
-	relRefs  = []string{"name", "sub/name", "../up", "./here", "#frag", "", "?q=1", "/rooted", "//other.example/p", "../../x", "a/./b/../c", "#a", "x#y", "é", ".", "..", "a//b", "doc",
+	absIRIs = []string{"http://a.example/x", "http://b.example/d/e/f", "http://b.example/d/doc", "urn:x:y", "http://b.example/d/doc#frag", "mailto:a@b.example", "http://a.example/é/ü?k=v#f", "http://a.example/a%20b", "http://b.example/", "http://b.example/d/"}
+	relRefs = []string{"name", "sub/name", "../up", "./here", "#frag", "", "?q=1", "/rooted", "//other.example/p", "../../x", "a/./b/../c", "#a", "x#y", "é", ".", "..", "a//b", "doc",
 		// a colon that belongs to the query or fragment, not to a scheme (RFC 3986 4.2 only restricts the first path segment)
 		"#sec:1", "?t=12:30", "item?ref=urn:x", "p/q:r", "./a:b", "#a:b/c",
 		// empty-path references: same-document, empty fragment, empty query
